@@ -103,7 +103,7 @@ func (ns *MapNamespace) Browse(bd *ua.BrowseDescription) *ua.BrowseResult {
 
 		return &ua.BrowseResult{
 			StatusCode: ua.StatusGood,
-			References: refs,
+			References: ns.suitableRefs(bd, refs),
 		}
 
 	}
@@ -130,7 +130,7 @@ func (ns *MapNamespace) Browse(bd *ua.BrowseDescription) *ua.BrowseResult {
 
 	return &ua.BrowseResult{
 		StatusCode: ua.StatusGood,
-		References: refs,
+		References: ns.suitableRefs(bd, refs),
 	}
 
 }
@@ -407,4 +407,16 @@ func (ns *MapNamespace) Root() *Node {
 	)
 	return n
 
+}
+
+// suitableRefs returns the references that match the direction, the reference
+// type and the node class mask of the browse description.
+func (ns *MapNamespace) suitableRefs(bd *ua.BrowseDescription, refs []*ua.ReferenceDescription) []*ua.ReferenceDescription {
+	out := make([]*ua.ReferenceDescription, 0, len(refs))
+	for _, r := range refs {
+		if suitableRef(ns.srv, bd, r) {
+			out = append(out, r)
+		}
+	}
+	return out
 }
